@@ -36,6 +36,7 @@ pub struct Stats {
     pub uuid_updates: usize,
     pub traffic_between_uuid_updates: bool,
     pub steps: usize,
+    pub exact_fit_checked: usize,
     pub panics: usize,
     pub resyncs: usize,
 }
@@ -125,6 +126,11 @@ fn check_demand(out: &mut Vec<Report>, step: usize, cmd: u8, req: &[u8], r: &[u8
 pub fn run_model(cfg: &CtxCfg, ops: &[Op]) -> Trace {
     let store = CtxStore::new(cfg);
     let mut ctx = store.ctx();
+    // shadow context (every other case): sees the same operations, but every
+    // request that the main context answered with n bytes is processed into a
+    // response buffer of exactly n bytes; it must behave identically
+    let shadow_store = CtxStore::new(cfg);
+    let mut shadow = if ops.len() % 2 == 1 { Some(shadow_store.ctx()) } else { None };
     let mut m = RefEndpoint::new(cfg);
     let mut out: Vec<Report> = Vec::new();
     let mut st = Stats::default();
@@ -134,6 +140,31 @@ pub fn run_model(cfg: &CtxCfg, ops: &[Op]) -> Trace {
         st.steps += 1;
         st.steps_after_last_assignment += 1;
         let obs = sut::apply_op(&mut ctx, op);
+        if let Some(sh) = shadow.as_mut() {
+            let shadow_op = match (op, &obs) {
+                (Op::Process { bytes, cap, fill }, Obs::Proc { proc, .. }) => match proc.resp {
+                    Some(n) if n < *cap as usize => Op::Process { bytes: bytes.clone(), cap: n as u16, fill: *fill },
+                    _ => op.clone(),
+                },
+                _ => op.clone(),
+            };
+            let sobs = sut::apply_op(sh, &shadow_op);
+            if let (Op::Process { bytes, .. }, Obs::Proc { proc, buf }, Obs::Proc { proc: sproc, buf: sbuf }) = (op, &obs, &sobs) {
+                if let Some(n) = proc.resp {
+                    st.exact_fit_checked += 1;
+                    let same = !proc.dec.is_panic() && sproc.dec == proc.dec && sproc.resp == proc.resp && n <= buf.len() && n <= sbuf.len() && sbuf[..n] == buf[..n];
+                    if !same && !proc.dec.is_panic() {
+                        let f = refmodel::ref_decode(bytes);
+                        let prop = if matches!(f.verdict, Verdict::Accept { .. }) && f.control && f.rq && matches!(f.cmd, 0x01..=0x06) { demand_prop(f.cmd) } else { "C12" };
+                        out.push(Report {
+                            prop,
+                            sig: format!("{}:{}:exact_fit_response_buffer", prop, cmd_name(f.cmd)),
+                            detail: format!("step {}: request {} is answered with {} bytes into a large buffer, but into a response buffer of exactly {} bytes process_packet gives {} / {:?}", i, hex(bytes), n, n, sproc.dec.brief(), sproc.resp),
+                        });
+                    }
+                }
+            }
+        }
         match (op, &obs) {
             (Op::Process { bytes, cap, .. }, Obs::Proc { proc, buf }) => {
                 traffic_since_uuid = true;
